@@ -12,6 +12,7 @@ EXPLANATION = (
     "and module_restart (table exception: Spawner::terminate). "
     '(R6, shared with C03.R3) what the handler and the elements emit during an event leaves the event buffer in program order. '
     '(R7) the element vector of a ProcessingStack only ever grows at its end (append keeps the installed order; no swap/insert/remove). '
+    "(R8) the plugin-style processing bracket is closed last: nothing of the module runs after the event-end hook on any exit of the event handlers and lifecycle calls. "
     "Decides these necessary conditions only; not per-history exactly-once counts.")
 ASSUMPTIONS = ["events are dispatched sequentially (one Runtime::dispatch_event at a time), so brackets of one module cannot nest"]
 
